@@ -10,6 +10,8 @@ except ImportError:      # replays run under the repository's interpreter, witho
     z3 = None
 
 Z3_TIMEOUT_MS = int(os.environ.get('PYVC_Z3_TIMEOUT_MS', '10000'))
+QUICK_CVC5_MS = int(os.environ.get('PYVC_QUICK_CVC5_MS', '6000'))     # cvc5 on the reduced problems of the attempts
+Z3_FIRST_TIMEOUT_MS = int(os.environ.get('PYVC_Z3_FIRST_TIMEOUT_MS', '2000'))   # string obligations: z3 briefly, then cvc5, then z3 in full
 CVC5_TIMEOUT_S = int(os.environ.get('PYVC_CVC5_TIMEOUT_S', '10'))
 OLDZ3_TIMEOUT_S = int(os.environ.get('PYVC_OLDZ3_TIMEOUT_S', '20'))
 
@@ -43,59 +45,426 @@ def _uses_strings(terms):
     return False
 
 
-QUICK_FRACTION = 0.15      # first round of the portfolio: every back end with a short budget
+def _goal_conjuncts(g, depth=0):
+    """conjuncts of a goal; `A or (B and C)` / `A -> (B and C)` are distributed: (A or B), (A or C)"""
+    if z3.is_and(g):
+        out = []
+        for c in g.children():
+            out.extend(_goal_conjuncts(c, depth))
+        return out
+    if depth < 2 and (z3.is_or(g) or z3.is_implies(g)):
+        ch = list(g.children())
+        if z3.is_implies(g):
+            ch = [z3.Not(ch[0]), ch[1]]
+        for k, c in enumerate(ch):
+            if z3.is_and(c):
+                rest = ch[:k] + ch[k + 1:]
+                out = []
+                for part in c.children():
+                    out.extend(_goal_conjuncts(z3.Or(*(rest + [part])), depth + 1))
+                return out
+    return [g]
 
 
 def discharge(pc, goal, want_smt2=False, all_backends=False, scale=1):
-    """Check validity of  And(pc) => goal.  The back ends (z3, cvc5, z3 4.8) are tried in two rounds: first
-    each with a short budget -- an obligation that one of them decides quickly should not wait for another
-    one's full timeout -- then each with the full budget."""
+    """Check validity of  And(pc) => goal.  A conjunctive goal is proved conjunct by conjunct (each query
+    is much easier for the string solvers than the conjunction); the first conjunct that is not proved
+    decides the verdict."""
+    parts = _goal_conjuncts(goal)
+    if len(parts) <= 1:
+        return _discharge1(pc, goal, want_smt2, all_backends, scale)
+    t0 = time.time()
+    last = None
+    unknown = None
+    for g in parts:
+        v = _discharge1(pc, g, want_smt2, all_backends, scale)
+        if v.status == 'sat':
+            v.time = time.time() - t0
+            return v
+        if v.status == 'unknown' and unknown is None:
+            unknown = v
+        last = v
+    v = unknown or last
+    v.time = time.time() - t0
+    return v
+
+
+def _has_quantifier(t):
+    seen = set()
+    todo = [t]
+    while todo:
+        x = todo.pop()
+        i = x.get_id()
+        if i in seen:
+            continue
+        seen.add(i)
+        if z3.is_quantifier(x):
+            return True
+        todo.extend(x.children())
+    return False
+
+
+def _abstract_apps(terms, congruence=True):
+    """Replace every ground application of an uninterpreted function by a constant (one per syntactically
+    distinct application, arguments simplified) and add the congruence constraints between applications of
+    the same function (Ackermann's reduction; for functions with many applications the constraints are left
+    out).  Every model of the original is a model of the result (give the constants the values of the
+    applications), so `unsat` carries over: sound for proving."""
+    cache = {}
+    names = {}
+    by_decl = {}
+
+    def has_var(t):
+        todo = [t]
+        while todo:
+            x = todo.pop()
+            if z3.is_var(x):
+                return True
+            todo.extend(x.children())
+        return False
+
+    def go(t):
+        k = t.get_id()
+        if k in cache:
+            return cache[k]
+        if z3.is_quantifier(t) or not z3.is_app(t) or t.num_args() == 0:
+            r = t
+        elif has_var(t):
+            r = t
+        else:
+            ch = [go(c) for c in t.children()]
+            d = t.decl()
+            if d.kind() == z3.Z3_OP_UNINTERPRETED:
+                app = z3.simplify(d(*ch))
+                key = app.sexpr()
+                r = names.get(key)
+                if r is None:
+                    r = z3.Const('app!%d' % len(names), t.sort())
+                    names[key] = r
+                    by_decl.setdefault(d.name(), []).append((list(app.children()) if z3.is_app(app) else ch, r))
+            else:
+                try:
+                    r = d(*ch)
+                except Exception:
+                    r = t
+        cache[k] = r
+        return r
+
+    out = [go(t) for t in terms]
+    if congruence:
+        for name, apps in by_decl.items():
+            if len(apps) > 32:
+                continue
+            for i in range(len(apps)):
+                for j in range(i + 1, len(apps)):
+                    (a1, c1), (a2, c2) = apps[i], apps[j]
+                    if len(a1) != len(a2):
+                        continue
+                    same = [x == y for x, y in zip(a1, a2) if not x.eq(y)]
+                    if any(z3.is_false(z3.simplify(e)) for e in same):
+                        continue
+                    out.append(z3.Implies(z3.And(*same) if len(same) != 1 else same[0], c1 == c2))
+    return out
+
+
+def _by_rewriting(pc, goal, external=False):
+    """Cheap first attempt: abstract uninterpreted applications, eliminate defined symbols (solve-eqs) and
+    simplify.  Decides the many obligations that are pure rewriting with the equations on the path -- where
+    the string solvers, given the same equations as word equations, do not terminate."""
+    try:
+        terms = _abstract_apps(list(pc) + [z3.Not(goal)])
+        g = z3.Goal()
+        g.add(*terms)
+        res = z3.Then('simplify', 'propagate-values', 'solve-eqs', 'simplify')(g)
+        for sub in res:
+            if len(sub) == 1 and z3.is_false(sub[0]):
+                continue
+            s = z3.Solver()
+            s.set('timeout', 2000)
+            s.add(*[sub[i] for i in range(len(sub))])
+            r = s.check()
+            if r == z3.unsat:
+                continue
+            if r == z3.unknown and external:
+                v = _external(s.to_smt2(), [sub[i] for i in range(len(sub))], only_cvc5=True, quick=True)
+                if v is not None and v.status == 'unsat':
+                    continue
+            return False
+        return True
+    except Exception:
+        return False
+
+
+_SK = [0]
+
+
+def _ground_args(terms):
+    """{(declaration name, argument position): [ground integer argument terms]} over the given terms"""
+    out = {}
+    seen = set()
+    todo = list(terms)
+    while todo:
+        x = todo.pop()
+        i = x.get_id()
+        if i in seen or z3.is_quantifier(x) or z3.is_var(x):
+            continue
+        seen.add(i)
+        if z3.is_app(x):
+            if x.decl().kind() in (z3.Z3_OP_UNINTERPRETED, z3.Z3_OP_SELECT) and x.num_args() > 0:
+                for k, a in enumerate(x.children()):
+                    if z3.is_int(a) and not _has_var(a):
+                        out.setdefault((x.decl().name(), k), {})[a.sexpr()] = a
+            todo.extend(x.children())
+    return out
+
+
+def _has_var(t):
+    todo = [t]
+    while todo:
+        x = todo.pop()
+        if z3.is_var(x):
+            return True
+        if z3.is_quantifier(x):
+            continue
+        todo.extend(x.children())
+    return False
+
+
+def _patterns(body, nvars):
+    """(declaration name, argument position, variable index) for applications that take a bound variable
+    directly as an argument"""
+    pats = set()
+    todo = [body]
+    seen = set()
+    while todo:
+        x = todo.pop()
+        if x.get_id() in seen or z3.is_quantifier(x):
+            continue
+        seen.add(x.get_id())
+        if z3.is_app(x):
+            if x.decl().kind() in (z3.Z3_OP_UNINTERPRETED, z3.Z3_OP_SELECT):
+                for k, a in enumerate(x.children()):
+                    if z3.is_var(a):
+                        pats.add((x.decl().name(), k, z3.get_var_index(a)))
+            todo.extend(x.children())
+    return pats
+
+
+MAX_INSTANCES = 12
+
+
+def _instantiated(flat, goal):
+    """A quantifier-free problem whose validity implies the original's:  a goal  forall j. P(j)  becomes
+    P(j0) for a fresh j0; every universally quantified hypothesis with one bound variable is replaced by its
+    instances at j0 and at the ground terms that occur, in the other formulas, where the hypothesis has its
+    bound variable (one round of pattern-based instantiation).  Instances are implied by the hypotheses."""
+    consts = []
+    if z3.is_quantifier(goal) and goal.is_forall():
+        n = goal.num_vars()
+        _SK[0] += 1
+        consts = [z3.Const('sk!%d!%d' % (_SK[0], i), goal.var_sort(i)) for i in range(n)]
+        # de Bruijn: variable 0 is the LAST bound variable
+        goal = z3.substitute_vars(goal.body(), *reversed(consts))
+    quantified = [h for h in flat if z3.is_quantifier(h) and h.is_forall() and h.num_vars() == 1]
+    if not quantified and not consts:
+        return None
+    ground = [h for h in flat if not _has_quantifier(h)]
+    occ = _ground_args(ground + [goal])
+    hyps = list(ground)
+    for h in quantified:
+        cands = {}
+        for c in consts:
+            if c.sort() == h.var_sort(0):
+                cands[c.sexpr()] = c
+        for (name, k, _vi) in _patterns(h.body(), 1):
+            for key, a in occ.get((name, k), {}).items():
+                if a.sort() == h.var_sort(0) and len(cands) < MAX_INSTANCES:
+                    cands.setdefault(key, a)
+        for a in cands.values():
+            hyps.extend(_goal_conjuncts(z3.substitute_vars(h.body(), a)))
+    seen = set()
+    uniq = []
+    for h in hyps:
+        k = h.get_id()
+        if k not in seen:
+            seen.add(k)
+            uniq.append(h)
+    return uniq, goal
+
+
+def _symbols(t):
+    out = set()
+    seen = set()
+    todo = [t]
+    while todo:
+        x = todo.pop()
+        i = x.get_id()
+        if i in seen:
+            continue
+        seen.add(i)
+        if z3.is_quantifier(x):
+            todo.append(x.body())
+            continue
+        if z3.is_app(x):
+            if x.decl().kind() == z3.Z3_OP_UNINTERPRETED:
+                out.add(x.decl().name())
+            todo.extend(x.children())
+    return out
+
+
+def _relevant(hyps, goal, rounds=3):
+    """the hypotheses in the cone of influence of the goal (shared uninterpreted symbols, a few rounds; symbols
+    that occur almost everywhere do not propagate).  Dropping hypotheses is sound."""
+    syms = [(_symbols(h), h) for h in hyps]
+    count = {}
+    for ss, _h in syms:
+        for x in ss:
+            count[x] = count.get(x, 0) + 1
+    common = {x for x, n in count.items() if n > max(8, 0.4 * len(hyps))}
+    rel = set(_symbols(goal))
+    chosen = [False] * len(syms)
+    for _ in range(rounds):
+        grew = False
+        for k, (ss, _h) in enumerate(syms):
+            if not chosen[k] and (ss & rel) - common:
+                chosen[k] = True
+                new = ss - rel
+                if new:
+                    rel |= new
+                    grew = True
+        if not grew:
+            break
+    return [h for k, (_ss, h) in enumerate(syms) if chosen[k] or not _ss]
+
+
+def _attempts(flat, qf, goal, scale):
+    """the cheap, hypothesis-dropping / instantiating attempts (see ENGINE.md 8); None if none succeeds"""
+    t0 = time.time()
+    if _by_rewriting(qf, goal):
+        return Verdict('unsat', 'z3-%s(rewriting)' % z3.get_version_string(), time.time() - t0)
+    sk = _instantiated(flat, goal)
+    if sk is not None:
+        for g in _goal_conjuncts(z3.simplify(sk[1])):
+            rel = _relevant(sk[0], g)
+            if len(rel) < len(sk[0]) and _by_rewriting(rel, g, external=True):
+                continue
+            if _by_rewriting(sk[0], g, external=True):
+                continue
+            v = _discharge2(sk[0], g, False, False, scale, quick=True)
+            if v.status != 'unsat':
+                return None
+        return Verdict('unsat', 'instantiation', time.time() - t0)
+    return None
+
+
+def _discharge1(pc, goal, want_smt2=False, all_backends=False, scale=1):
+    """Check validity of  And(pc) => goal.  Problems over strings: first by rewriting / from instances / from
+    the quantifier-free facts alone (fewer hypotheses: sound; the irrelevant ones are what gets the string solvers
+    lost), then in full.  Other problems: in full first (z3 decides them at once), the attempts only if that
+    does not."""
+    flat = []
+    for t in pc:
+        flat.extend(_goal_conjuncts(t))
+    if z3.is_true(goal) or all_backends or os.environ.get('PYVC_NO_ATTEMPTS'):
+        return _discharge2(flat, goal, want_smt2, all_backends, scale)
+    qf = [t for t in flat if not _has_quantifier(t)]
+    if _uses_strings(flat + [goal]):
+        # what z3 decides about the full problem it usually decides at once
+        t0 = time.time()
+        probe = z3.Solver()
+        probe.set('timeout', 1500)
+        probe.add(*flat)
+        probe.add(z3.Not(goal))
+        r = probe.check()
+        if r == z3.unsat:
+            return Verdict('unsat', 'z3-%s' % z3.get_version_string(), time.time() - t0,
+                           smt2=probe.to_smt2() if want_smt2 else None)
+        if r == z3.sat:
+            return Verdict('sat', 'z3-%s' % z3.get_version_string(), time.time() - t0, model=probe.model(),
+                           smt2=probe.to_smt2() if want_smt2 else None)
+        v = _attempts(flat, qf, goal, scale)
+        if v is not None:
+            return v
+        if len(qf) < len(flat):
+            v = _discharge2(qf, goal, want_smt2, False, scale, quick=True)
+            if v.status == 'unsat':
+                return v
+        return _discharge2(flat, goal, want_smt2, all_backends, scale)
+    v = _discharge2(flat, goal, want_smt2, all_backends, scale)
+    if v.status == 'unknown':
+        v2 = _attempts(flat, qf, goal, scale)
+        if v2 is not None:
+            return v2
+    return v
+
+
+def _discharge2(pc, goal, want_smt2=False, all_backends=False, scale=1, quick=False):
+    """Check validity of  And(pc) => goal."""
     t0 = time.time()
     if z3.is_true(goal):
-        return Verdict('unsat', 'trivial', 0.0)
+        return Verdict('unsat', 'path-evaluation', 0.0)
     s = z3.Solver()
+    staged = scale == 1 and Z3_FIRST_TIMEOUT_MS < Z3_TIMEOUT_MS and _uses_strings(list(pc) + [goal])
+    s.set('timeout', Z3_FIRST_TIMEOUT_MS if staged else Z3_TIMEOUT_MS * scale)
     for t in pc:
         s.add(t)
     s.add(z3.Not(goal))
-    smt2 = s.to_smt2() if (want_smt2 or all_backends) else None
-    reason = None
-    for frac in (QUICK_FRACTION, 1.0):
-        s.set('timeout', max(200, int(Z3_TIMEOUT_MS * scale * frac)))
-        r = s.check()
-        dt = time.time() - t0
-        if r == z3.unsat:
-            v = Verdict('unsat', 'z3-%s' % z3.get_version_string(), dt, smt2=smt2)
-            if all_backends:
-                v2 = _external(smt2, pc + [goal])
-                if v2 is not None and v2.status == 'sat':
-                    return Verdict('unknown', 'disagreement', dt, smt2=smt2, reason='z3 unsat / %s sat' % v2.backend)
-            return v
-        if r == z3.sat:
-            m = s.model()
-            return Verdict('sat', 'z3-%s' % z3.get_version_string(), dt, model=m, smt2=smt2)
-        reason = s.reason_unknown()
-        if smt2 is None:
-            smt2 = s.to_smt2()
-        v2 = _external(smt2, pc + [goal], scale * frac)
+    smt2 = None
+    r = s.check()
+    if r == z3.unknown and staged:
+        # what z3 decides on strings it usually decides at once; cvc5 is the stronger string solver
+        smt2 = s.to_smt2()
+        v2 = _external(smt2, pc + [goal], only_cvc5=True, quick=quick)
         if v2 is not None and v2.status != 'unknown':
             v2.smt2 = smt2
+            v2.time = time.time() - t0
             return v2
+        if quick:
+            return Verdict('unknown', 'quick', time.time() - t0)
+        s.set('timeout', Z3_TIMEOUT_MS)
+        r = s.check()
+    dt = time.time() - t0
+    if want_smt2 or r == z3.unknown or all_backends:
+        smt2 = s.to_smt2()
+    if r == z3.unsat:
+        v = Verdict('unsat', 'z3-%s' % z3.get_version_string(), dt, smt2=smt2)
+        if all_backends:
+            v2 = _external(smt2, pc + [goal])
+            if v2 is not None and v2.status == 'sat':
+                return Verdict('unknown', 'disagreement', dt, smt2=smt2, reason='z3 unsat / %s sat' % v2.backend)
+        return v
+    if r == z3.sat:
+        m = s.model()
+        return Verdict('sat', 'z3-%s' % z3.get_version_string(), dt, model=m, smt2=smt2)
+    reason = s.reason_unknown()
+    v2 = _external(smt2, pc + [goal], scale, skip_cvc5=staged)
+    if v2 is not None and v2.status != 'unknown':
+        v2.smt2 = smt2
+        return v2
     return Verdict('unknown', 'z3+cvc5+z3-4.8', time.time() - t0, smt2=smt2, reason=reason)
 
 
-def _external(smt2, terms, scale=1):
+def _external(smt2, terms, scale=1, only_cvc5=False, skip_cvc5=False, quick=False):
     strings = _uses_strings(terms)
     with tempfile.NamedTemporaryFile('w', suffix='.smt2', delete=False) as f:
         text = smt2
         if '(set-logic' not in text:
             text = '(set-logic ALL)\n' + text
+        # cvc5 does not accept a backslash in a |quoted| symbol (e.g. the function str.rstrip['\\n'])
+        import re as _re
+        text = _re.sub(r'\|[^|]*\|', lambda mo: mo.group(0).replace('\\', '/'), text)
         f.write(text)
         fn = f.name
     try:
         t0 = time.time()
         for backend, cmd in (
-                ('cvc5-1.0.3', ['/usr/bin/cvc5', '--strings-exp', '--tlimit=%d' % max(500, int(CVC5_TIMEOUT_S * 1000 * scale)), fn]),
-                ('z3-4.8.12', ['/usr/bin/z3', '-t:%d' % max(500, int(OLDZ3_TIMEOUT_S * 1000 * scale)), fn])):
+                ('cvc5-1.0.3', ['/usr/bin/cvc5', '--strings-exp',
+                                '--tlimit=%d' % (QUICK_CVC5_MS if quick else CVC5_TIMEOUT_S * 1000 * scale), fn]),
+                ('z3-4.8.12', ['/usr/bin/z3', '-T:%d' % (OLDZ3_TIMEOUT_S * scale), fn])):
+            if only_cvc5 and not backend.startswith('cvc5'):
+                continue
+            if skip_cvc5 and backend.startswith('cvc5'):
+                continue
             try:
                 p = subprocess.run(cmd, capture_output=True, text=True, timeout=max(CVC5_TIMEOUT_S, OLDZ3_TIMEOUT_S) * scale + 5)
             except subprocess.TimeoutExpired:
@@ -131,10 +500,33 @@ def model_to_dict(m):
                 else:
                     out[d.name()] = str(v)
             else:
-                out[d.name()] = str(v)
+                out[d.name()] = _func_interp(v)
         except Exception:
             pass
     return out
+
+
+def _plain_value(v):
+    if z3.is_int_value(v):
+        return v.as_long()
+    if z3.is_true(v) or z3.is_false(v):
+        return z3.is_true(v)
+    if z3.is_string_value(v):
+        return decode_z3_string(v.as_string())
+    return str(v)
+
+
+def _func_interp(fi):
+    """interpretation of an uninterpreted function in a counter-model (attributes of the elements of a symbolic
+    sequence are functions of the index): {'__fn__': [[[args...], value], ...], 'else': value, 'text': str}"""
+    try:
+        entries = []
+        for i in range(fi.num_entries()):
+            e = fi.entry(i)
+            entries.append([[_plain_value(e.arg_value(k)) for k in range(e.num_args())], _plain_value(e.value())])
+        return {'__fn__': entries, 'else': _plain_value(fi.else_value()), 'text': str(fi)[:300]}
+    except Exception:
+        return str(fi)
 
 
 def decode_z3_string(s):
